@@ -189,7 +189,12 @@ def correspondence(ctx):
             force = {"gadd": True, "rot": True, "add": True}
         elif k % 4 == 1:
             force = {"gadd": True, "rot": False, "add": True}
-        cases.append({"consts": gen_consts(rng, force), "via": "params" if rng.random() < 0.7 else "direct"})
+        consts = gen_consts(rng, force)
+        if k % 16 in (0, 1):       # a crop-area fraction below 1e-5 (DJI, BHR, ...) with greenhouses on, through Parameters
+            consts["INITIAL_CROP_AREA_FRACTION"] = rng.choice([1.29082270632173e-06, 9.03575894425214e-06, 10 ** rng.uniform(-6.5, -5.1)])
+            cases.append({"consts": consts, "via": "params"})
+            continue
+        cases.append({"consts": consts, "via": "params" if rng.random() < 0.7 else "direct"})
     res = ctx.run_impl("c09_impl", {"cases": cases})["results"]
     terms, meta = [], []
     dist = {"accepted": 0, "rejected": 0, "rot+gh": 0, "rot": 0, "gh": 0, "plain": 0, "area": 0, "tiny(<1/month)": 0,
@@ -228,11 +233,36 @@ def correspondence(ctx):
     ctx.traces += len(terms)
 
 
+REAL_BASE = {"scale": "country", "seasonality": "country", "grasses": "country_nuclear_winter",
+             "crop_disruption": "country_nuclear_winter", "fish": "nuclear_winter", "waste": "baseline_in_country",
+             "nutrition": "catastrophe", "intake_constraints": "enabled", "stored_food": "baseline",
+             "ratio_stocks_untouched": "zero", "shutoff": "immediate", "cull": "do_eat_culled", "fat": "not_required",
+             "protein": "not_required", "meat_strategy": "reduce_breeding", "NMONTHS": 120}
+
+
+def real_pairs(ctx):
+    """relocation on/off and expansion on/off on real rows through the real option layer, with the crop multiplier"""
+    import csv, os, lib
+    rng = ctx.rng
+    with open(os.path.join(lib.REPO, "data", "no_food_trade", "computer_readable_combined.csv")) as f:
+        isos = [row["iso3"] for row in csv.DictReader(f)]
+    chosen = ["ARG"] + rng.sample(isos, 2 if ctx.quick else 40)
+    pairs = []
+    for iso in chosen:
+        for mult in ([0.5, 0.9, 1.3, None] if iso == "ARG" or not ctx.quick else [rng.choice([0.5, 0.9, 1.3])]):
+            for disruption in (["country_nuclear_winter", "zero"] if iso == "ARG" else ["country_nuclear_winter"]):
+                opt = dict(REAL_BASE, crop_disruption=disruption)
+                if mult is not None:
+                    opt["CROP_PRODUCTION_MULTIPLIER"] = mult
+                pairs.append({"iso3": iso, "options": opt})
+    return pairs
+
+
 def audit(ctx):
     rng = ctx.rng
     n = 110 if ctx.quick else 2500
     cases = [gen_consts(rng, {"add": True} if k % 2 else {}) for k in range(n)]
-    res = ctx.run_impl("c09_audit", {"cases": cases, "seed": rng.randint(0, 1 << 30)})
+    res = ctx.run_impl("c09_audit", {"cases": cases, "seed": rng.randint(0, 1 << 30), "real_pairs": real_pairs(ctx)})
     ctx.notes["audit"] = {k: v for k, v in res.items() if k != "failures"}
     ctx.count(n=res["checks"])
     for k in range(res["distinct"]):
@@ -251,7 +281,9 @@ def replay(rep):
     import lib
     ctx = lib.Ctx("C09", "quick", rep.get("seed", 0))
     if rep.get("runner") == "c09_audit":
-        res = ctx.run_impl("c09_audit", {"cases": [rep["consts"]], "seed": rep.get("audit_seed", 0)})
+        payload = {"cases": [rep["consts"]] if "consts" in rep else [], "seed": rep.get("audit_seed", 0),
+                   "real_pairs": [rep["real_pair"]] if "real_pair" in rep else []}
+        res = ctx.run_impl("c09_audit", payload)
         bad = [f for f in res["failures"] if f["kind"] == rep.get("kind_of_failure", f["kind"])]
         for f in bad[:5]:
             print("reproduced:", f["kind"], "-", f["what"])
